@@ -49,7 +49,7 @@ from runner import Infra, TieBroken
 ID = "C13"
 LEAN_MODULES = ["PyYetiVerif.Props.C13", "PyYetiVerif.Props.C13Text", "PyYetiVerif.Props.C13Dmig", "PyYetiVerif.Props.C13Grid",
                 "PyYetiVerif.Props.C13Cord", "PyYetiVerif.Props.C13DmigX", "PyYetiVerif.Props.C13Fmt", "PyYetiVerif.Props.C13Multi", "PyYetiVerif.Props.C13Values", "PyYetiVerif.Props.C13Uset", "PyYetiVerif.Props.C13Set",
-                "PyYetiVerif.Props.C13ValuesFixed", "PyYetiVerif.Audit.C13"]
+                "PyYetiVerif.Props.C13ValuesTab", "PyYetiVerif.Audit.C13"]
 AUDIT_FILE = "PyYetiVerif/Audit/C13.lean"
 THEOREMS = [
     "PyYetiVerif.C13." + n
@@ -71,8 +71,8 @@ THEOREMS = [
         "real_field_reads real_field_accuracy real_field_clean tabled1_roundtrip_values grid_roundtrip_values "
         "cord2_roundtrip_values dmig_roundtrip_values dmig_lines_int_instance "
         "uset_bulk_roundtrip_labels uset_bulk_roundtrip_labels_full set_header_split_fails set_roundtrip_iff_partial "
-        "dmig_field_fits dmig_terms_in_range tabled1_field_overflow_counterexample "
-        "tabled1_roundtrip_values_fixed tabled1_fixed_all_doubles tabled1_fixed_eq_current tabled1_fixed_differs_iff"
+        "dmig_field_fits dmig_terms_in_range "
+        "tabled1_all_doubles tabled1_default_eq_before_fix tabled1_default_differs_iff"
     ).split()
 ]
 TRUSTED = [
@@ -137,8 +137,8 @@ ASSUMPTIONS = [
     "wtgrids / vecwrite with no grid at all raise IndexError (modelled, not part of the round trip)",
     "a real value is 'representable in the field' when its text in the writer's own format is not longer than the field: "
     "'%.9E' of a NEGATIVE double with a three-digit exponent is 17 characters — wtdmig falls back to '%.8E' (F64, repaired: "
-    "dmig_field_fits needs no hypothesis on the values), wttabled1's default pair format does not (F65, open: the fit "
-    "hypothesis of tabled1_roundtrip_values, tabled1_field_overflow_counterexample)",
+    "dmig_field_fits needs no hypothesis on the values), wttabled1's default case goes through the same helper (F65, repaired "
+    "by 328435d: tabled1_roundtrip_values needs no hypothesis on the values either); a user-supplied `form` is the caller's",
     "rddmig(expanded=True): every id referenced on the DMIG is used either as a scalar point (DOF 0) or as a grid (DOF "
     "1..6) throughout, form-9 column numbers are >= 1 and the header NCOL is an integer",
     "files read by several readers: the line after a card is not a continuation line of that card's syntax (a line of "
@@ -179,7 +179,7 @@ MANIFEST = {
     "term sits at its own (row id, column id) and all other positions are 0; VALUES: a written '{:w.pE}' / '{:w.pe}' / D / "
     "'{:w.pf}' field (C12's bit-exact float formatting) is read back by nas_sscanf as exactly the decimal it shows, "
     "within half a unit of its last digit of the value written (relative 0.5e-p for E formats, absolute 0.5e-p for f), "
-    "and on physical lines tabled1_roundtrip_values ({:16.9E}), grid_roundtrip_values ({:16.8f}), cord2_roundtrip_values "
+    "and on physical lines tabled1_roundtrip_values (default format through _dmig_field: {:16.9E}, {:16.8E} for a negative value with a three-digit exponent; every finite value), grid_roundtrip_values ({:16.8f}), cord2_roundtrip_values "
     "({:16.8e}), dmig_roundtrip_values ({:16.9E} / D) state the values read; files with the cards of several readers: each "
     "reader returns exactly its own cards' content regardless of the other cards, comments and SET statements present "
     "(readers_independent, typed for rddmig / rdgrids / rdcord2cards / rdspoints / rdcsupers / rdextrn / rdtabled1); "
@@ -201,12 +201,11 @@ MANIFEST = {
     "uset2bulk (C14); FileOK for arbitrary written files (checked per generated file by the model's own decision "
     "procedure); op2 DMIG. Findings: a NEGATIVE value with a three-digit decimal exponent needs 17 characters in '{:16.9E}' — "
     "F64 wtdmig (repaired by 4411a34: _dmig_field falls back to '{:16.8E}'; modelled, translated, dmig_field_fits; regression "
-    "guard in the oracle), F65 wttabled1 default pair format (open: over-long field, the reader returns another number; "
-    "tabled1_field_overflow_counterexample). Candidate fix of F65 (corpus/c13_f65_candidate_fix.diff, NOT applied: the default "
-    "case formatted per value through _dmig_field before vecwrite): its model tabled1LinesFixed is proved to round-trip EVERY "
-    "finite value (tabled1_roundtrip_values_fixed, tabled1_fixed_all_doubles) and to equal the current text wherever that "
-    "fits (tabled1_fixed_eq_current, tabled1_fixed_differs_iff); tied to the patched text by "
-    "corpus/c13_f65_candidate_check.py (evidence corpus/c13_f65_candidate_evidence.json), not by ./check.",
+    "guard in the oracle), F65 wttabled1 default pair format (repaired by 328435d: the default case is formatted value by "
+    "value through the same _dmig_field; modelled (tabled1LinesDefault), translated (the default-form test, the helper call and "
+    "the '{:s}{:s}' hand-over are extracted and re-proved), tabled1_roundtrip_values / tabled1_all_doubles hold for every "
+    "finite value, tabled1_default_eq_before_fix / tabled1_default_differs_iff say where the text changed; exact-text stream "
+    "with negative three-digit-exponent values; regression guard in the oracle).",
     "technique": "Lean 4 proof (induction over run/line/column/character structure; rational bounds through C12's eParts / "
     "rheDiv lemmas) + Python-ast translator of format strings and layout constants + exact-text differential "
     "correspondence with pyyeti.nastran.bulk / pyyeti.writer writers and readers",
@@ -388,7 +387,8 @@ def _structured_idlists(ctx):
     return out
 
 
-FORMS = [("{:8.2f}{:8.5f}", False), ("{:16.9E}{:16.9E}", True), ("{:16.2f}{:16.5f}", True), ("{:8.1f}{:#8.0f}", False)]
+TAB_DEFAULT_FORM = "{:16.9E}{:16.9E}"
+FORMS = [("{:8.2f}{:8.5f}", False), (TAB_DEFAULT_FORM, True), ("{:16.2f}{:16.5f}", True), ("{:8.1f}{:#8.0f}", False)]
 
 
 def _gen_table(rng, n=None):
@@ -741,12 +741,32 @@ def _writer_streams(ctx, B, texts):
         t, d = _gen_table(rng, npts)
         tid = rng.randint(1, 99999999)
         name = rng.choice(["TABLED1", "TABLED1", "TABLEM1", "TABDMP1"])
-        impl = _write(bulk.wttabled1, tid, t, d, None, form, name)
         per = 2 if wide else 4
         br = ["tabled1:" + ("wide" if wide else "small"),
               "tabled1:" + ("shorter-than-line" if npts < per else ("exact-fill" if npts % per == 0 else "remainder"))]
-        fields = _tab_fields(form, t, d)
-        B.add("wttabled1", "tabled1 %d %s %d %s" % (1 if wide else 0, _hex(name), tid, " ".join(_hex(x) for x in fields)),
+        if form == TAB_DEFAULT_FORM:
+            # the default case: the MODEL formats the values (`tabled1LinesDefault`: every value through `_dmig_field`, fix
+            # 328435d of finding F65) - any double, in particular negative values with a three-digit exponent (17 characters
+            # in '{:16.9E}': the fallback field)
+            if rng.random() < 0.7:
+                def dbl():  # inside the range every reader turns into the same double (the texts are read back below)
+                    x = _gen_double(rng)
+                    while x != 0 and not 1e-290 < abs(x) < 1e290:
+                        x = _gen_double(rng)
+                    return x
+                t = [dbl() if rng.random() < 0.5 else x for x in t]
+                d = [-rng.uniform(1.0, 9.999999) * 10.0 ** rng.choice([rng.randint(-290, -100), rng.randint(100, 290)])
+                     if rng.random() < 0.4 else dbl() for _ in d]
+            nfb = sum(1 for x in t + d if len("{:16.9E}".format(x)) > 16)
+            br += ["tabled1:default-form"] + (["tabled1:default-form:fallback-field"] if nfb else [])
+            impl = _write(bulk.wttabled1, tid, t, d, None, form, name) if rng.random() < 0.5 else \
+                _write(bulk.wttabled1, tid, t, d, tablestr=name)
+            req = "tabled1d %s %d %s" % (_hex(name), tid, " ".join("%d %d" % (_bits(a), _bits(b)) for a, b in zip(t, d)))
+        else:
+            impl = _write(bulk.wttabled1, tid, t, d, None, form, name)
+            fields = _tab_fields(form, t, d)
+            req = "tabled1 %d %s %d %s" % (1 if wide else 0, _hex(name), tid, " ".join(_hex(x) for x in fields))
+        B.add("wttabled1", req,
               {"tid": tid, "t": t, "d": d, "form": form, "tablestr": name}, impl, _text_conv(), nontrivial=npts >= 1, branch=br)
         if isinstance(impl, str) and not impl.startswith("error") and name == "TABLED1":
             texts.append(("tabled1", impl))
@@ -1733,7 +1753,7 @@ REQUIRED = [
     "findseq:ok", "findseq:error", "nasints:short", "nasints:exact-fill", "nasints:remainder",
     "csuper:one-line", "csuper:exact-fill", "csuper:remainder", "extrn:exact-fill", "extrn:remainder",
     "spoints:thru", "spoints:singles", "set:wrapped", "set:one-line", "set:token-split", "wrap:split", "wrap:nosplit",
-    "tabled1:wide", "tabled1:small", "tabled1:shorter-than-line", "tabled1:exact-fill", "tabled1:remainder",
+    "tabled1:wide", "tabled1:small", "tabled1:default-form", "tabled1:default-form:fallback-field", "tabled1:shorter-than-line", "tabled1:exact-fill", "tabled1:remainder",
     "dmig:form1", "dmig:form2", "dmig:form6", "dmig:form9", "dmig:type1", "dmig:type2", "dmig:type3", "dmig:type4",
     "dmig:kind-f9-unequal", "reader:comma", "reader:fixed", "reader:fixed16", "reader:comment",
     "rdspoints", "rdcsupers", "rdextrn:ok", "rdextrn:error", "rdtabled1:ok", "rdsets:ok", "rdsets:error", "rddmig",
@@ -1862,8 +1882,12 @@ def _len_family(n, first, per):
 
 def _fmt_tol(form, x, second=False):
     """half a unit in the last written place of one formatted value"""
-    s = form.format(x, x)
-    s = s[len(s) // 2:] if second else s[: len(s) // 2]
+    if form == TAB_DEFAULT_FORM:  # every value through _dmig_field: one digit less when '{:16.9E}' is 17 characters
+        s = "{:16.9E}".format(x)
+        s = s if len(s) <= 16 else "{:16.8E}".format(x)
+    else:
+        s = form.format(x, x)
+        s = s[len(s) // 2:] if second else s[: len(s) // 2]
     if "E" in s.upper():
         digits = len(s.upper().split("E")[0].split(".")[1]) if "." in s else 0
         return 0.5000001 * 10.0 ** (np.floor(np.log10(abs(x))) - digits) if x != 0 else 0.0
@@ -2445,7 +2469,8 @@ def _o_e3(case):
     """a NEGATIVE value whose decimal exponent has three digits (|x| >= 1e100 or < 1e-99): '{:16.9E}' needs 17 characters.
     wtdmig (finding F64, repaired by 4411a34: `_dmig_field` falls back to '{:16.8E}') must keep every line within 72
     columns and read the value back to the nine digits written — also as real / imaginary part of a complex term;
-    wttabled1 with its default pair format has no fallback (finding F65, open)"""
+    wttabled1 with its default pair format likewise (finding F65, repaired by 328435d: the default case goes through the same
+    `_dmig_field`); both rules are regression guards and pass on the repaired tree"""
     import pandas as pd
 
     bulk = _bulk()
@@ -2464,8 +2489,8 @@ def _o_e3(case):
         text = _write(bulk.wttabled1, 1, [0.0, 1.0], [x, 1.0])
         got = _read(bulk.rdtabled1, text)
         y = None if isinstance(got, str) or got[1].shape != (2, 2) else float(got[1][0, 1])
-        bad = y is None or abs(y - x) > 5.05e-10 * abs(x)
-        fam = OPEN_F65
+        bad = y is None or abs(y - x) > 5.05e-9 * abs(x) or any(len(l) > 72 for l in text.split("\n"))
+        fam = FIXED_F65
     if bad:
         return (fam, "%s writes %r with '{:16.9E}' as a 17-character field (max line %d columns); read back: %r"
                 % (case["writer"], x, max(len(l) for l in text.split("\n")), y if y is not None else str(got)[:80]),
@@ -2514,7 +2539,8 @@ def _gen_oracle_cases(ctx):
         n = rng.randint(1, 25)
         if "E" in form:
             t = sorted(rng.uniform(0, 1e4) * 10.0 ** rng.randint(-8, 3) for _ in range(n))
-            d = [rng.choice([0.0, rng.uniform(-1, 1) * 10.0 ** rng.randint(-30, 30)]) for _ in range(n)]
+            d = [rng.choice([0.0, rng.uniform(-1, 1) * 10.0 ** rng.randint(-30, 30),
+                             rng.uniform(-1, 1) * 10.0 ** rng.choice([rng.randint(-250, -99), rng.randint(99, 250)])]) for _ in range(n)]
         else:
             t = [round(0.01 * i, 2) for i in range(n)]
             d = [rng.uniform(-9.9, 9.9) for _ in range(n)]
@@ -2738,9 +2764,9 @@ def _run_oracle_case(kind, case, known):
 # is a VIOLATION until the integrator lists it)
 UNLISTED_OK = set()
 
-# F64 (fixed in /repo 4411a34): regression guard, must pass on the repaired tree.  F65 (open): reported -> KNOWN-FINDING.
+# F64 (fixed in /repo 4411a34), F65 (fixed in /repo 328435d): regression guards, must pass on the repaired tree.
 FIXED_F64 = "wtdmig-negative-value-three-digit-exponent-overflows-field"
-OPEN_F65 = "wttabled1-negative-value-three-digit-exponent-overflows-field"
+FIXED_F65 = "wttabled1-negative-value-three-digit-exponent-overflows-field"
 
 
 def search(ctx, hints):
